@@ -799,3 +799,129 @@ Proof.
         split; [|split; assumption]. cbn [run]. unfold step at 1. cbv zeta. rewrite Hw.
         destruct (Z.eqb_spec seen (s_ver s)); [contradiction|]. exact Hrun.
 Qed.
+
+(* ---------- the trace replayer only ever takes model steps ---------- *)
+Definition reaches (s s' : state) : Prop := exists l, run s l = Some s'.
+Lemma reaches_refl : forall s, reaches s s.
+Proof. intros s; exists []; reflexivity. Qed.
+Lemma reaches_trans : forall a b c, reaches a b -> reaches b c -> reaches a c.
+Proof. intros a b c [l1 H1] [l2 H2]. exists (l1 ++ l2). rewrite run_app, H1. exact H2. Qed.
+Lemma reaches_step : forall s a s', step s a = Some s' -> reaches s s'.
+Proof. intros s a s' H. exists [a]. cbn [run]. rewrite H. reflexivity. Qed.
+Lemma reaches_run : forall s l s', run s l = Some s' -> reaches s s'.
+Proof. intros s l s' H. exists l. exact H. Qed.
+Lemma reaches_steps : forall s1 os l s', reaches s1 s1 ->
+  (forall s2, os = Some s2 -> reaches s1 s2) -> steps os l = Some s' -> reaches s1 s'.
+Proof.
+  intros s1 os l s' _ H Hs. destruct os as [s2|]; [|discriminate].
+  eapply reaches_trans; [apply H; reflexivity|]. eapply reaches_run; exact Hs.
+Qed.
+
+Ltac rsolve :=
+  match goal with
+  | H : step ?s _ = Some _ |- reaches ?s _ => exact (reaches_step _ _ _ H)
+  | H : run ?s _ = Some _ |- reaches ?s _ => exact (reaches_run _ _ _ H)
+  | H : Some _ = Some _ |- reaches _ _ => injection H as <-; apply reaches_refl
+  | |- reaches ?s ?s => apply reaches_refl
+  end.
+
+Lemma ensure_queued_reaches : forall s n nr s', ensure_queued s n nr = Some s' -> reaches s s'.
+Proof.
+  intros s n nr s' H. unfold ensure_queued in H.
+  destruct (qlookup n (s_q s)); [injection H as <-; apply reaches_refl|].
+  destruct (find_pending s n (seq 0 nr)); [|discriminate]. eapply reaches_run; exact H.
+Qed.
+
+Lemma take_now_reaches : forall s2 p n s', take_now s2 p n = Some s' -> reaches s2 s'.
+Proof.
+  intros s2 p n s' H2. unfold take_now in H2. cbv zeta in H2.
+  match type of H2 with match (if ?d then _ else _) with _ => _ end = _ => destruct d end.
+  - destruct (step s2 (AAvail p)) as [s3|] eqn:E3; [|discriminate].
+    destruct (_ && _); [|discriminate]. eapply reaches_trans; rsolve.
+  - destruct (step s2 (AWake p)) as [s2'|] eqn:E3; [|discriminate]. cbn [steps] in H2.
+    destruct (run s2' [AAvail p]) as [s3|] eqn:E4; [|discriminate].
+    destruct (_ && _); [|discriminate].
+    eapply reaches_trans; [rsolve|]. eapply reaches_trans; rsolve.
+Qed.
+
+Lemma replay_take_reaches : forall s p n nr live s', replay_take s p n nr live = Some s' -> reaches s s'.
+Proof.
+  intros s p n nr live s' H. unfold replay_take in H.
+  destruct (ensure_queued s n nr) as [s1|] eqn:E1; [|discriminate].
+  apply ensure_queued_reaches in E1. eapply reaches_trans; [exact E1|]. clear E1.
+  cbv zeta in H. destruct (negb _); [discriminate|].
+  destruct (p_acc (s_peers s1 p)); try (eapply take_now_reaches; exact H).
+  destruct (step s1 (AStart p)) as [s2|] eqn:E2; [|discriminate].
+  eapply reaches_trans; [rsolve|eapply take_now_reaches; exact H].
+Qed.
+
+Lemma replay_ev_reaches : forall s nr e s', replay_ev s nr e = Some s' -> reaches s s'.
+Proof.
+  intros s nr e s' H. destruct e as [p n|p n|r [|]]; cbn [replay_ev] in H.
+  - eapply replay_take_reaches; exact H.
+  - eapply replay_take_reaches; exact H.
+  - rsolve.
+  - destruct (r_st (s_reqs s r)); try rsolve.
+    destruct (step s (RIns r)) as [s1|] eqn:E; [|discriminate]. cbn [steps] in H.
+    eapply reaches_trans; rsolve.
+Qed.
+
+Lemma replay_evs_reaches : forall es s nr s', replay_evs s nr es = Some s' -> reaches s s'.
+Proof.
+  induction es as [|e es IH]; intros s nr s' H; cbn [replay_evs] in H; [injection H as <-; apply reaches_refl|].
+  destruct (replay_ev s nr e) as [s1|] eqn:E; [|discriminate].
+  eapply reaches_trans; [eapply replay_ev_reaches; exact E|eapply IH; exact H].
+Qed.
+
+Definition acc_reaches (s : state) (acc : option (state * bool)) : Prop :=
+  match acc with Some (s', _) => reaches s s' | None => True end.
+
+Lemma settle_req_reaches : forall s acc r, acc_reaches s acc -> acc_reaches s (settle_req acc r).
+Proof.
+  intros s [[s0 st]|] r H; cbn [settle_req acc_reaches] in *; [|exact I].
+  match goal with |- context [match ?e with Some _ => _ | None => None end] => destruct e as [s1|] eqn:E end; [|exact I].
+  cbn [acc_reaches]. eapply reaches_trans; [exact H|].
+  destruct (r_st (s_reqs s0 r)); try rsolve.
+  destruct (_ && _); [|rsolve].
+  destruct (step s0 (RWakeDropped r)) as [s2|] eqn:E2; [|discriminate]. cbn [steps] in E.
+  eapply reaches_trans; rsolve.
+Qed.
+
+Lemma settle_peer_reaches : forall s acc p, acc_reaches s acc -> acc_reaches s (settle_peer acc p).
+Proof.
+  intros s [[s0 st]|] p H; cbn [settle_peer acc_reaches] in *; [|exact I].
+  match goal with |- context [match ?e with Some _ => _ | None => None end] => destruct e as [s1|] eqn:E end; [|exact I].
+  cbn [acc_reaches]. eapply reaches_trans; [exact H|].
+  cbv zeta in E. destruct (p_alive (s_peers s0 p)); destruct (p_acc (s_peers s0 p)); try rsolve.
+  - destruct (p_permits (s_peers s0 p)); rsolve.
+  - destruct (_ =? _); rsolve.
+Qed.
+
+Lemma fold_reaches : forall (f : option (state * bool) -> nat -> option (state * bool)) s l acc,
+  (forall acc x, acc_reaches s acc -> acc_reaches s (f acc x)) ->
+  acc_reaches s acc -> acc_reaches s (fold_left f l acc).
+Proof. intros f s l. induction l as [|x l IH]; intros acc Hf H; cbn [fold_left]; auto. Qed.
+
+Lemma settle_reaches : forall s np nr s' b, settle s np nr = Some (s', b) -> reaches s s'.
+Proof.
+  intros s np nr s' b H. unfold settle in H.
+  assert (A : acc_reaches s (fold_left settle_peer (seq 0 np) (fold_left settle_req (seq 0 nr) (Some (s, false))))).
+  { apply fold_reaches; [intros; apply settle_peer_reaches; assumption|].
+    apply fold_reaches; [intros; apply settle_req_reaches; assumption|]. apply reaches_refl. }
+  rewrite H in A. exact A.
+Qed.
+
+(* Every state against which the implementation's quiescent state is compared is a reachable state
+   of the model, reached by a model execution that contains the reported visible events. *)
+Theorem replay_step_reachable : forall s np nr x s' b,
+  reachable s -> replay_step s np nr x = ROk s' b -> reachable s'.
+Proof.
+  intros s np nr x s' b [l0 Hl0] H. unfold replay_step in H.
+  destruct (run s (fst x)) as [s1|] eqn:E1; [|discriminate].
+  destruct (replay_evs s1 nr (snd x)) as [s2|] eqn:E2; [|discriminate].
+  destruct (settle s2 np nr) as [[s3 st]|] eqn:E3; [|discriminate]. injection H as <- <-.
+  assert (R : reaches s s3).
+  { eapply reaches_trans; [eapply reaches_run; exact E1|].
+    eapply reaches_trans; [eapply replay_evs_reaches; exact E2|eapply settle_reaches; exact E3]. }
+  destruct R as [l Hl]. exists (l0 ++ l). rewrite run_app, Hl0. exact Hl.
+Qed.
